@@ -160,8 +160,8 @@ def shard(i: int, n: int, tier: str, seed: int) -> Result:
     quick = tier == 'quick'
     allc = [t for fam, t in ctxs.contexts('quick' if quick else 'thorough') if fam != 'exp']
     random.Random(2024 + seed).shuffle(allc)
-    if quick:
-        allc = allc[:640]
+    # 640 sampled contexts per seed in quick, 12000 of the 32936 in thorough (all of them took a loaded machine past the shard budget)
+    allc = allc[:640] if quick else allc[:12000]
     mine = allc[i::n]
     changed = variants_n = 0
     specials = [o for (_, o, _) in operands.specials() if isinstance(o, Float)]
@@ -177,8 +177,8 @@ def shard(i: int, n: int, tier: str, seed: int) -> Result:
             res.count('contexts')
             fd = describe(mod.C)
             pts = operands.breakpoints(fd, dense=False)
-            if quick and len(pts) > 50:
-                pts = rng.sample(pts, 50)
+            if len(pts) > (50 if quick else 120):
+                pts = rng.sample(pts, 50 if quick else 120)
             ops = [Float(x=RealFloat.from_rational(v)) for v in pts if genops_dyadic(v)] + specials
             for fname in ('q_assign', 'q_return', 'q_cast'):
                 f = getattr(mod, fname)
